@@ -336,6 +336,20 @@ func checkC16(R *Run) {
 					for _, st := range tc.body {
 						key, cval, cname, ok := parseFlagIf(hp, st, recvName)
 						if !ok {
+							if rows, isLoop := parseFlagLoop(hp, st, recvName); isLoop {
+								for _, r := range rows {
+									k := r[0].(string)
+									if _, seen := load[k]; seen {
+										dup = true
+										odd = append(odd, "duplicate key "+k)
+									}
+									load[k] = r[1].(int)
+									loadConst[k] = r[2].(string)
+								}
+								continue
+							}
+						}
+						if !ok {
 							closed = false
 							odd = append(odd, P.pos(st.Pos()))
 							continue
@@ -415,6 +429,38 @@ func checkC16(R *Run) {
 				}
 				return true
 			})
+			// parameters of expanded helpers that are bound to the receiver: `__pN_x := (*AccessBitmap)(&(bits))`
+			recvAliases := map[string]bool{}
+			ast.Inspect(mm.Body, func(n ast.Node) bool {
+				as, ok := n.(*ast.AssignStmt)
+				if !ok || as.Tok != token.DEFINE || len(as.Lhs) != len(as.Rhs) {
+					return true
+				}
+				for i, l := range as.Lhs {
+					id, ok := l.(*ast.Ident)
+					if !ok || !strings.HasPrefix(id.Name, "__p") {
+						continue
+					}
+					r := ast.Unparen(as.Rhs[i])
+					for {
+						if c, ok := r.(*ast.CallExpr); ok && len(c.Args) == 1 {
+							if tv, ok := hp.TypesInfo.Types[c.Fun]; ok && tv.IsType() {
+								r = ast.Unparen(c.Args[0])
+								continue
+							}
+						}
+						if u, ok := r.(*ast.UnaryExpr); ok && u.Op == token.AND {
+							r = ast.Unparen(u.X)
+							continue
+						}
+						break
+					}
+					if rid, ok := r.(*ast.Ident); ok && (rid.Name == recvName || recvAliases[rid.Name]) {
+						recvAliases[id.Name] = true
+					}
+				}
+				return true
+			})
 			seenField := map[string]bool{}
 			for _, e := range lit.Elts {
 				kv, ok := e.(*ast.KeyValueExpr)
@@ -428,7 +474,7 @@ func checkC16(R *Run) {
 				if ok && len(call.Args) == 1 {
 					viaRecv := false
 					if sel, ok := call.Fun.(*ast.SelectorExpr); ok && sel.Sel.Name == "IsSet" {
-						if id, ok := sel.X.(*ast.Ident); ok && id.Name == recvName {
+						if id, ok := sel.X.(*ast.Ident); ok && (id.Name == recvName || recvAliases[id.Name]) {
 							viaRecv = true
 						}
 					}
@@ -744,13 +790,23 @@ func parseFlagIf(p *packages.Package, st ast.Stmt, recv string) (key string, val
 	if !isIx {
 		return
 	}
-	lit, isLit := ix.Index.(*ast.BasicLit)
-	if !isLit || lit.Kind != token.STRING {
-		return
-	}
-	k, err := strconv.Unquote(lit.Value)
-	if err != nil {
-		return
+	var k string
+	if flagKeyOf != nil {
+		kk, kok := flagKeyOf(ix.Index)
+		if !kok {
+			return
+		}
+		k = kk
+	} else {
+		lit, isLit := ix.Index.(*ast.BasicLit)
+		if !isLit || lit.Kind != token.STRING {
+			return
+		}
+		kk, err := strconv.Unquote(lit.Value)
+		if err != nil {
+			return
+		}
+		k = kk
 	}
 	fName := as.Lhs[0].(*ast.Ident).Name
 	okName := as.Lhs[1].(*ast.Ident).Name
@@ -783,11 +839,150 @@ func parseFlagIf(p *packages.Package, st ast.Stmt, recv string) (key string, val
 	if id, isID := sel.X.(*ast.Ident); !isID || (id.Name != recv && !(strings.HasPrefix(id.Name, "__p") && strings.HasSuffix(types.TypeString(p.TypesInfo.TypeOf(id), nil), "hotline.AccessBitmap"))) {
 		return
 	}
+	if flagValOf != nil {
+		name, vok := flagValOf(call.Args[0])
+		if !vok {
+			return
+		}
+		return k, 0, name, true
+	}
 	n, name, cok := constIntOf(p, call.Args[0])
 	if !cok {
 		return
 	}
 	return k, n, name, true
+}
+
+// flagKeyOf / flagValOf: when set, parseFlagIf takes the key and the privilege from these instead of requiring a
+// string literal and a constant (used for the body of a loop over a constant table: they name the element's fields).
+var flagKeyOf func(e ast.Expr) (string, bool)
+var flagValOf func(e ast.Expr) (string, bool)
+
+// parseFlagLoop: `for _, e := range TABLE { if f, ok := v[e.NAME].(bool); ok && f { bits.Set(e.BIT) } }` with TABLE a
+// package-level slice / array of struct literals with constant fields that nothing else touches. Returns the
+// (key, privilege, constant name) rows of the table.
+func parseFlagLoop(p *packages.Package, st ast.Stmt, recv string) (rows [][3]any, ok bool) {
+	rs, isRange := st.(*ast.RangeStmt)
+	if !isRange || rs.Value == nil || len(rs.Body.List) != 1 {
+		return nil, false
+	}
+	if rs.Key != nil {
+		if k, isID := rs.Key.(*ast.Ident); !isID || k.Name != "_" {
+			return nil, false
+		}
+	}
+	elem, isID := rs.Value.(*ast.Ident)
+	tbl, isTbl := ast.Unparen(rs.X).(*ast.Ident)
+	if !isID || !isTbl {
+		return nil, false
+	}
+	tv, _ := p.TypesInfo.Uses[tbl].(*types.Var)
+	if tv == nil || tv.Parent() != p.Types.Scope() {
+		return nil, false
+	}
+	fieldOfElem := func(e ast.Expr) (string, bool) {
+		sel, isSel := ast.Unparen(e).(*ast.SelectorExpr)
+		if !isSel {
+			return "", false
+		}
+		x, isX := sel.X.(*ast.Ident)
+		if !isX || p.TypesInfo.Uses[x] != p.TypesInfo.Defs[elem] {
+			return "", false
+		}
+		return sel.Sel.Name, true
+	}
+	flagKeyOf, flagValOf = fieldOfElem, fieldOfElem
+	nameField, _, bitField, okIf := parseFlagIf(p, rs.Body.List[0], recv)
+	flagKeyOf, flagValOf = nil, nil
+	if !okIf || nameField == "" || bitField == "" {
+		return nil, false
+	}
+	// the table: declared once with a literal, used nowhere but in range statements
+	var lit *ast.CompositeLit
+	uses := 0
+	for _, f := range p.Syntax {
+		ast.Inspect(f, func(n ast.Node) bool {
+			switch x := n.(type) {
+			case *ast.ValueSpec:
+				for i, nm := range x.Names {
+					if p.TypesInfo.Defs[nm] == types.Object(tv) && i < len(x.Values) {
+						lit, _ = x.Values[i].(*ast.CompositeLit)
+					}
+				}
+			case *ast.RangeStmt:
+				if id, ok := ast.Unparen(x.X).(*ast.Ident); ok && p.TypesInfo.Uses[id] == types.Object(tv) {
+					uses--
+				}
+			case *ast.Ident:
+				if p.TypesInfo.Uses[x] == types.Object(tv) {
+					uses++
+				}
+			}
+			return true
+		})
+	}
+	if lit == nil || uses != 0 {
+		return nil, false
+	}
+	var stt *types.Struct
+	switch t := tv.Type().Underlying().(type) {
+	case *types.Slice:
+		stt, _ = t.Elem().Underlying().(*types.Struct)
+	case *types.Array:
+		stt, _ = t.Elem().Underlying().(*types.Struct)
+	}
+	if stt == nil {
+		return nil, false
+	}
+	idxOf := func(name string) int {
+		for i := 0; i < stt.NumFields(); i++ {
+			if stt.Field(i).Name() == name {
+				return i
+			}
+		}
+		return -1
+	}
+	ni, bi := idxOf(nameField), idxOf(bitField)
+	if ni < 0 || bi < 0 {
+		return nil, false
+	}
+	for _, el := range lit.Elts {
+		cl, isCL := el.(*ast.CompositeLit)
+		if !isCL {
+			return nil, false
+		}
+		var ne, be ast.Expr
+		for i, fe := range cl.Elts {
+			if kv, isKV := fe.(*ast.KeyValueExpr); isKV {
+				switch kv.Key.(*ast.Ident).Name {
+				case nameField:
+					ne = kv.Value
+				case bitField:
+					be = kv.Value
+				}
+				continue
+			}
+			if i == ni {
+				ne = fe
+			}
+			if i == bi {
+				be = fe
+			}
+		}
+		if ne == nil || be == nil {
+			return nil, false
+		}
+		ntv, has := p.TypesInfo.Types[ne]
+		if !has || ntv.Value == nil || ntv.Value.Kind() != constant.String {
+			return nil, false
+		}
+		n, cname, cok := constIntOf(p, be)
+		if !cok {
+			return nil, false
+		}
+		rows = append(rows, [3]any{constant.StringVal(ntv.Value), n, cname})
+	}
+	return rows, len(rows) > 0
 }
 
 // typeCase: one arm of a dispatch on the dynamic type of a value.
